@@ -113,85 +113,103 @@ def r2_tolerates_vanished_files(repo=None):
 
 
 def r3_cache_is_keyed_by_full_name(repo=None):
+    """Roles instead of names: the *handle* attribute is the self attribute assigned from h5py.File(...), the *key* attribute
+    is the one compared with the joined full path, the *derived* attributes are those computed (transitively) from the handle.
+    Helpers of the class are inlined first."""
     r = Rule("C09.R3", "cached per-file state is keyed by the full file name and refreshed whenever the name differs")
     m = pyfront.mod("digital_rf_hdf5", repo)
     q = TL + "._read"
-    f = m.fn(q)
+    fvw = m.flat(q)
+    f = fvw.fn()
     joins = [n for n in ast.walk(f) if isinstance(n, ast.Assign) and isinstance(n.targets[0], ast.Name) and isinstance(n.value, ast.Call)
              and pyfront.call_name(n.value) == "os.path.join"]
     if len(joins) != 1:
         raise AnalysisError("%s: full path construction (os.path.join) not found exactly once" % q)
     fv = joins[0].targets[0].id
-    ifs = [n for n in ast.walk(f) if isinstance(n, ast.If) and norm(ast.unparse(n.test)) in (
-        "%s != self._cachedFilename" % fv, "self._cachedFilename != %s" % fv)]
+    opens = [n for n in ast.walk(f) if isinstance(n, ast.Assign) and isinstance(n.value, ast.Call) and pyfront.call_name(n.value) == "h5py.File"
+             and (pyfront.dotted(n.targets[0]) or "").startswith("self.")]
+    if len(opens) != 1:
+        raise AnalysisError("%s: `self.<handle> = h5py.File(...)` not found exactly once (helpers inlined: %s)" % (q, fvw.inlined))
+    handle = pyfront.dotted(opens[0].targets[0])[5:]
+    keyattr = None
+    ifs = []
+    for n in ast.walk(f):
+        if isinstance(n, ast.If) and isinstance(n.test, ast.Compare) and len(n.test.ops) == 1 and isinstance(n.test.ops[0], ast.NotEq):
+            l_, r_ = n.test.left, n.test.comparators[0]
+            for a_, b_ in ((l_, r_), (r_, l_)):
+                if isinstance(a_, ast.Name) and a_.id == fv and (pyfront.dotted(b_) or "").startswith("self."):
+                    keyattr = pyfront.dotted(b_)[5:]
+                    ifs.append(n)
     if len(ifs) != 1:
-        r.violation(m.rel, q, "no `%s != self._cachedFilename` test" % fv, "the cache of the open file is not keyed by the full path: "
+        r.violation(m.rel, q, "no `%s != self.<cached name>` test" % fv, "the cache of the open file is not keyed by the full path: "
                     "state of another file (same relative name in another top-level directory, or a stale handle) could be used",
                     line=f.lineno)
         return r
     body = ifs[0]
-    # statements executed under the test: the body itself plus same-class helpers it calls (with the key passed as argument)
     region = ast.Module(body=list(body.body), type_ignores=[])
-    stored = {a for a, n in pyfront.self_stores(region)}
-    key_ok = any(isinstance(n, ast.Assign) and pyfront.dotted(n.targets[0]) == "self._cachedFilename"
-                 and norm(ast.unparse(n.value)) == fv for n in ast.walk(region))
-    helper_ids = set()
-    for c in ast.walk(region):
-        if isinstance(c, ast.Call) and (pyfront.call_name(c) or "").startswith("self."):
-            h = m.functions.get(TL + "." + pyfront.call_name(c)[5:])
-            if h is None:
+    in_region = {id(x) for x in ast.walk(region)}
+    if id(opens[0]) not in in_region:
+        r.violation(m.rel, q, "h5py.File(...) outside the `%s != self.%s` test" % (fv, keyattr), "the file is re-opened (or not opened) "
+                    "independently of the cache key", line=opens[0].lineno)
+    # derived attributes
+    derived = {handle}
+    changed = True
+    while changed:
+        changed = False
+        for a, n in pyfront.self_stores(f):
+            if a in derived or not isinstance(n, ast.Assign):
                 continue
-            helper_ids.add(id(h))
-            params = [a.arg for a in h.args.args if a.arg != "self"]
-            bind = dict(zip(params, [norm(ast.unparse(a)) for a in c.args]))
-            bind.update({k.arg: norm(ast.unparse(k.value)) for k in c.keywords if k.arg})
-            stored |= {a for a, n in pyfront.self_stores(h)}
-            for n in ast.walk(h):
-                if isinstance(n, ast.Assign) and pyfront.dotted(n.targets[0]) == "self._cachedFilename" \
-                        and isinstance(n.value, ast.Name) and bind.get(n.value.id) == fv:
-                    key_ok = True
-    need = {"_cachedFile", "_cachedFilename", "rf_data", "rf_data_len", "rf_index", "rf_index_len"}
+            used = {pyfront.dotted(x)[5:] for x in ast.walk(n.value) if isinstance(x, ast.Attribute) and (pyfront.dotted(x) or "").startswith("self.")
+                    and pyfront.dotted(x).count(".") == 1}
+            if used & derived:
+                derived.add(a)
+                changed = True
+    need = derived | {keyattr}
+    stored = {a for a, n in pyfront.self_stores(region)}
+    key_ok = any(isinstance(n, ast.Assign) and pyfront.dotted(n.targets[0]) == "self." + keyattr
+                 and norm(ast.unparse(n.value)) == fv for n in ast.walk(region))
     outside = []
+    for a, n in pyfront.self_stores(f):
+        if a in need and id(n) not in in_region:
+            outside.append("%s in %s" % (a, q))
+    inl = set(fvw.inlined)
     for q2, f2 in m.functions.items():
-        if not q2.startswith(TL + ".") or q2.endswith(".__init__") or id(f2) in helper_ids:
+        if not q2.startswith(TL + ".") or q2.endswith(".__init__") or q2 == q or q2.split(".")[-1] in inl:
             continue
         for a, n in pyfront.self_stores(f2):
-            if a in need and not (f2 is f and body.lineno <= n.lineno <= body.end_lineno):
+            if a in need and not (a == handle and pyfront.const(getattr(n, "value", None)) is None and isinstance(getattr(n, "value", None), ast.Constant)):
                 outside.append("%s in %s" % (a, q2))
-    if need <= stored and key_ok and not outside:
-        r.ok("%s:%s %s" % (m.rel, body.lineno, q), "file handle, datasets, index copy and lengths are all refreshed together under "
-             "the full-name test; the key is set to the full path")
+    if need <= stored and key_ok and not outside and len(derived) >= 3:
+        r.ok("%s:%s %s" % (m.rel, body.lineno, q), "handle `%s`, key `%s` and the %d attributes derived from the handle (%s) are all refreshed "
+             "together under the full-name test; the key is set to the full path" % (handle, keyattr, len(derived) - 1, ", ".join(sorted(derived - {handle}))))
+    elif len(derived) < 3 and need <= stored and key_ok and not outside:
+        raise AnalysisError("%s: only %d attributes derived from the cached handle were recognised" % (q, len(derived) - 1))
     else:
         r.violation(m.rel, q, "cache refresh stores %s (missing %s, outside %s, key set to full path: %s)" % (
                     sorted(stored & need), sorted(need - stored), outside, key_ok),
                     "part of the cached per-file state is not refreshed when the file changes", line=body.lineno)
-    # a closed handle must not stay cached under its old key: after self._cachedFile.close() the key is re-assigned before
+    # a closed handle must not stay cached under its old key: after self.<handle>.close() the key is re-assigned before
     # the function moves on (next file or return); paths that leave by an uncaught exception are not considered
-    for q2, f2 in m.functions.items():
-        if not q2.startswith(TL + "."):
-            continue
-        g2 = m.cfg(q2)
-        closes = [n for n in g2.nodes if any(pyfront.call_name(c) == "self._cachedFile.close" for c in pyfront.node_calls(n))]
-        if not closes or q2.endswith(".close") or q2.endswith(".__del__"):
-            continue
-        keys = [n.id for n in g2.nodes if isinstance(n.ast, ast.Assign) and any(
-            pyfront.dotted(t) == "self._cachedFilename" for t in n.ast.targets)]
-        heads = [n.id for n in g2.nodes if n.kind == "cond" and isinstance(n.ast, ast.For)]
-        exits = [n.id for n in g2.nodes if n.kind in ("exit", "return")]
-        for cnode in closes:
-            seen = g2.reach([cnode.id], avoid=keys)
-            stale = [x for x in heads + exits if x in seen and x != cnode.id]
-            if stale:
-                tgt = g2.nodes[stale[0]]
-                r.violation(m.rel, q2, "self._cachedFile.close() can be followed by `%s` without re-assigning self._cachedFilename" % (
-                            tgt.label[:40] if tgt.kind == "cond" else "return"), "the cache keeps naming a file whose handle was closed: a later "
-                            "read of that file uses the closed handle and fails (a file that cannot be opened right now, e.g. the "
-                            "writer's next file, is enough)", line=cnode.line)
-            else:
-                r.ok("%s:%s %s" % (m.rel, cnode.line, q2), "after closing the cached handle the key is re-assigned before the next file / return")
+    g2 = fvw.cfg()
+    closes = [n for n in g2.nodes if any(pyfront.call_name(c) == "self.%s.close" % handle for c in pyfront.node_calls(n))]
+    keys = [n.id for n in g2.nodes if isinstance(n.ast, ast.Assign) and any(
+        pyfront.dotted(t) == "self." + keyattr for t in n.ast.targets)]
+    heads = [n.id for n in g2.nodes if n.kind == "cond" and isinstance(n.ast, ast.For) and not (
+        isinstance(n.ast.target, ast.Name) and n.ast.target.id.startswith("__once_"))]
+    exits = [n.id for n in g2.nodes if n.kind in ("exit", "return")]
+    for cnode in closes:
+        seen = g2.reach([cnode.id], avoid=keys)
+        stale = [x for x in heads + exits if x in seen and x != cnode.id]
+        if stale:
+            tgt = g2.nodes[stale[0]]
+            r.violation(m.rel, q, "self.%s.close() can be followed by `%s` without re-assigning self.%s" % (
+                        handle, tgt.label[:40] if tgt.kind == "cond" else "return", keyattr), "the cache keeps naming a file whose handle was "
+                        "closed: a later read of that file uses the closed handle and fails (a file that cannot be opened right now, e.g. "
+                        "the writer's next file, is enough)", line=cnode.line)
+        else:
+            r.ok("%s:%s %s" % (m.rel, cnode.line, q), "after closing the cached handle the key is re-assigned before the next file / return")
     # the key is the absolute join
-    if norm(ast.unparse(joins[0].value)) == "os.path.join(self.top_level_dir, self.channel_name, fp)" or [
-            norm(ast.unparse(a)) for a in joins[0].value.args[:2]] == ["self.top_level_dir", "self.channel_name"]:
+    if [norm(ast.unparse(a)) for a in joins[0].value.args[:2]] == ["self.top_level_dir", "self.channel_name"]:
         r.ok("%s:%s %s" % (m.rel, joins[0].lineno, q), "%s = top_level_dir/channel/relative path" % fv)
     else:
         r.violation(m.rel, q, "%s = %s" % (fv, norm(ast.unparse(joins[0].value))), "cache key is not the full path", line=joins[0].lineno)
